@@ -233,6 +233,9 @@ class Interp:
             return False
         if target.module.name in ("evo.core.transformations",):
             return False
+        from .known_functions import KNOWN_FUNCTIONS
+        if target.qualname not in KNOWN_FUNCTIONS:
+            return True      # added after the pinned tree: never an anchor
         return target.name not in mentioned_names()
 
     # ================================================================ entry
@@ -1647,6 +1650,16 @@ class Interp:
                 len(args) == 1 and not kwargs and args[0].op != "star":
             # np.shape(a) is a.shape etc.: one term for both spellings
             return tm.attr(args[0], _ATTR_ALIASES[fn.args[0]])
+        if fn.op == "global" and fn.args[0] == "builtins.getattr" and \
+                not kwargs and len(args) in (2, 3) and \
+                tm.is_const(args[1]) and \
+                isinstance(tm.const_val(args[1]), str) and (
+                    len(args) == 2 or (
+                        args[0].op == "param" and args[0].args[0] == "args")):
+            # getattr(x, "name") is x.name; with a default only for the
+            # parsed command line, whose options always exist
+            return self.get_attr(args[0], tm.const_val(args[1]), frame, live,
+                                 node)
         if fn.op == "cls" and len(args) == 1 and not kwargs and \
                 self.prog.enum_members(fn.args[0]) is not None:
             # Enum lookup by member or by value: Unit(Unit.meters) is
